@@ -57,6 +57,13 @@ func hashOf(b []byte) string {
 type got struct {
 	mu  sync.Mutex
 	seq []map[string]interface{}
+	bad int // WebSocket messages that are not exactly one complete interleaved frame (or response)
+}
+
+func (g *got) badMsg() {
+	g.mu.Lock()
+	g.bad++
+	g.mu.Unlock()
 }
 
 func (g *got) items() []map[string]interface{} {
@@ -109,9 +116,11 @@ func playFlow(do func(m, u string, h map[string]string, body string) vclient.Ite
 		return "", false
 	}
 	sess := strings.Split(r.Header["session"], ";")[0]
-	r = do("SETUP", url+"/streamid=1", map[string]string{"Transport": transports[1], "Session": sess}, "")
-	if r.Kind != "response" || r.Status != 200 {
-		return "", false
+	if transports[1] != "" { // "": the player sets up the video track only
+		r = do("SETUP", url+"/streamid=1", map[string]string{"Transport": transports[1], "Session": sess}, "")
+		if r.Kind != "response" || r.Status != 200 {
+			return "", false
+		}
 	}
 	r = do("PLAY", url, map[string]string{"Session": sess}, "")
 	return sess, r.Kind == "response" && r.Status == 200
@@ -200,6 +209,17 @@ func udpClient(t *testing.T, addr, path string) *client {
 }
 
 func wsrtspClient(t *testing.T, addr, path string) *client {
+	return wsrtspClientT(t, addr, path, "RTP/AVP/TCP;unicast;interleaved=2-3")
+}
+
+// a player that sets up the video track only: it is owed the video channel and its control channel, nothing else
+func wsrtspVideoClient(t *testing.T, addr, path string) *client {
+	c := wsrtspClientT(t, addr, path, "")
+	c.name, c.proto = "wsrtsp-video", "rtp-video"
+	return c
+}
+
+func wsrtspClientT(t *testing.T, addr, path, audioTransport string) *client {
 	ws, err := vclient.DialWS(addr, "/streams"+path, "rtsp")
 	if err != nil || ws.Status != 101 {
 		t.Fatal("ws-rtsp: upgrade failed")
@@ -226,10 +246,12 @@ func wsrtspClient(t *testing.T, addr, path string) *client {
 			}
 			if it.Kind == "frame" {
 				rtpFrom(g, it.Channel, it.Payload)
+			} else if it.Kind != "response" {
+				g.badMsg()
 			}
 		}
 	}
-	if _, ok := playFlow(do, "rtsp://"+addr+path, [2]string{"RTP/AVP/TCP;unicast;interleaved=0-1", "RTP/AVP/TCP;unicast;interleaved=2-3"}); !ok {
+	if _, ok := playFlow(do, "rtsp://"+addr+path, [2]string{"RTP/AVP/TCP;unicast;interleaved=0-1", audioTransport}); !ok {
 		t.Fatal("ws-rtsp client: handshake failed")
 	}
 	go func() {
@@ -240,6 +262,8 @@ func wsrtspClient(t *testing.T, addr, path string) *client {
 			}
 			if it := vclient.ParseRTSPMessage(p); it.Kind == "frame" {
 				rtpFrom(g, it.Channel, it.Payload)
+			} else if it.Kind != "response" {
+				g.badMsg()
 			}
 		}
 	}()
@@ -247,6 +271,16 @@ func wsrtspClient(t *testing.T, addr, path string) *client {
 }
 
 func wspClient(t *testing.T, addr, path string) *client {
+	return wspClientT(t, addr, path, "RTP/AVP/TCP;unicast;interleaved=2-3")
+}
+
+func wspVideoClient(t *testing.T, addr, path string) *client {
+	c := wspClientT(t, addr, path, "")
+	c.name, c.proto = "wsp-video", "rtp-video"
+	return c
+}
+
+func wspClientT(t *testing.T, addr, path, audioTransport string) *client {
 	ctl, err := vclient.DialWS(addr, "/streams"+path, "control")
 	if err != nil || ctl.Status != 101 {
 		t.Fatal("wsp: control upgrade failed")
@@ -312,7 +346,7 @@ func wspClient(t *testing.T, addr, path string) *client {
 		}
 		return vclient.ParseRTSPMessage([]byte(payload))
 	}
-	if _, ok := playFlow(do, "rtsp://"+addr+path, [2]string{"RTP/AVP/TCP;unicast;interleaved=0-1", "RTP/AVP/TCP;unicast;interleaved=2-3"}); !ok {
+	if _, ok := playFlow(do, "rtsp://"+addr+path, [2]string{"RTP/AVP/TCP;unicast;interleaved=0-1", audioTransport}); !ok {
 		t.Fatal("wsp client: handshake failed")
 	}
 	go func() {
@@ -321,8 +355,11 @@ func wspClient(t *testing.T, addr, path string) *client {
 			if err != nil || op == 8 {
 				return
 			}
-			if len(p) > 4 && p[0] == '$' {
-				rtpFrom(g, int(p[1]), p[4:])
+			// every message on the data channel must be exactly one complete interleaved frame
+			if it := vclient.ParseRTSPMessage(p); it.Kind == "frame" {
+				rtpFrom(g, it.Channel, it.Payload)
+			} else {
+				g.badMsg()
 			}
 		}
 	}()
@@ -500,7 +537,7 @@ func TestTransports(t *testing.T) {
 			}
 		}
 		var clients []*client
-		early := []func(*testing.T, string, string) *client{tcpClient, udpClient, wsrtspClient, httpflvClient, wspClient}
+		early := []func(*testing.T, string, string) *client{tcpClient, udpClient, wsrtspClient, httpflvClient, wspClient, wsrtspVideoClient, wspVideoClient}
 		late := []func(*testing.T, string, string) *client{wspClient, wsflvClient, tcpClient, wspClient}
 		for _, mk := range early {
 			clients = append(clients, mk(t, srv.Addr, path))
@@ -572,7 +609,7 @@ func TestTransports(t *testing.T) {
 			if i == 4 {
 				upto = dropAt
 			}
-			out.Put(map[string]interface{}{"t": round, "e": "client", "c": c.name, "proto": c.proto, "left_at": upto, "items": c.g.items()})
+			out.Put(map[string]interface{}{"t": round, "e": "client", "c": c.name, "proto": c.proto, "left_at": upto, "items": c.g.items(), "bad": c.g.bad})
 			total += len(c.g.seq)
 			c.g.mu.Unlock()
 		}
